@@ -374,6 +374,8 @@ struct Obs {
     authority: BTreeSet<String>,  // owner/type/ttl/rd
     additional: BTreeSet<String>, // owner/type/ttl/rd
     n_answer: usize, n_auth: usize, n_add: usize,
+    /// answer and authority sections in message order (the additional section's order follows a hash map)
+    answer_seq: Vec<String>, auth_seq: Vec<String>,
     out_of_zone: bool,
 }
 
@@ -392,8 +394,10 @@ impl Obs {
         if self.out_of_zone { return "OutOfZone".into(); }
         // which RRset an ANY query returns depends on hash order: placeholder here, membership in the oracle
         let an = if qtype == T_ANY && self.aa && self.rcode == 0 && !self.answer.is_empty() { "ANY".to_string() } else { set_show(&self.answer) };
-        format!("{} {} AN={} AU={} AD={} E={}", self.rcode, self.aa as u8, an, set_show(&self.authority), set_show(&self.additional),
-            if errs.is_empty() { "-".to_string() } else { errs.join(",") })
+        let seq = |v: &Vec<String>| if v.is_empty() { "-".to_string() } else { v.join(";") };
+        let ans = if an == "ANY" { "ANY".to_string() } else { seq(&self.answer_seq) };
+        format!("{} {} AN={} AU={} AD={} ANS={} AUS={} E={}", self.rcode, self.aa as u8, an, set_show(&self.authority), set_show(&self.additional),
+            ans, seq(&self.auth_seq), if errs.is_empty() { "-".to_string() } else { errs.join(",") })
     }
     fn dup_free(&self) -> bool { self.n_answer == self.answer.len() && self.n_auth == self.authority.len() && self.n_add == self.additional.len() }
 }
@@ -412,6 +416,7 @@ fn observe(zone: &Zone, q: &Rel, qtype: u16, oz: bool) -> Obs {
         let r = r.unwrap();
         let (t, rd) = rd_of(r.data());
         o.n_answer += 1;
+        o.answer_seq.push(format!("{}/{}/{}", t, r.ttl().as_secs(), rd.show()));
         o.answer.insert(format!("{}/{}/{}", t, r.ttl().as_secs(), rd.show()));
     }
     for r in msg.authority().unwrap().limit_to::<ZoneRecordData<_, ParsedName<_>>>() {
@@ -419,6 +424,7 @@ fn observe(zone: &Zone, q: &Rel, qtype: u16, oz: bool) -> Obs {
         let (t, rd) = rd_of(r.data());
         let owner = Rel::from_abs(r.owner()).map(|x| x.show()).unwrap_or_else(|| "!".into());
         o.n_auth += 1;
+        o.auth_seq.push(format!("{}/{}/{}/{}", owner, t, r.ttl().as_secs(), rd.show()));
         o.authority.insert(format!("{}/{}/{}/{}", owner, t, r.ttl().as_secs(), rd.show()));
     }
     for r in msg.additional().unwrap().limit_to::<ZoneRecordData<_, ParsedName<_>>>() {
@@ -604,12 +610,17 @@ fn expected_special(z: &Flat, n: &Rel) -> Option<Sp> {
 
 /// Content and per-node special state a sequence of operations leads to, by the
 /// meaning of the operations (independent of the implementation and of the model).
-struct Replayed { content: Flat, special: BTreeMap<Rel, Sp> }
+/// `content`: what the zone is meant to contain; `special`: the Special each node holds; `pstore`: the
+/// delegation / alias typed RRsets (NS, DS below the apex; CNAME) that sit in a node's plain RRset store.
+struct Replayed { content: Flat, special: BTreeMap<Rel, Sp>, pstore: Flat }
+
+fn is_special_key(n: &Rel, t: u16) -> bool { (!n.0.is_empty() && (t == T_NS || t == T_DS)) || t == T_CNAME }
 
 fn replay(ops: &[Op]) -> Replayed {
     let mut comm = Flat::default();
     let mut sh: BTreeMap<Rel, Sp> = BTreeMap::new();
-    let mut work: Option<(Flat, BTreeMap<Rel, Sp>)> = None;
+    let mut ps = Flat::default();
+    let mut work: Option<(Flat, BTreeMap<Rel, Sp>, Flat)> = None;
     let mut built = false;
     let mut zseen = false;
     let mut fin = false;
@@ -620,23 +631,23 @@ fn replay(ops: &[Op]) -> Replayed {
                 for o in owners { if let Some(x) = expected_special(&comm, &o) { sh.insert(o, x); } } }
         }
         match op {
-            Op::BRr(n, r) => comm.set(n, r),
+            Op::BRr(n, r) => { comm.set(n, r); if is_special_key(n, r.rtype) { ps.set(n, r); } }
             Op::BCut(c) => { if !c.name.0.is_empty() { comm.set(&c.name, &c.ns); if let Some(d) = &c.ds { comm.set(&c.name, d); } sh.insert(c.name.clone(), sp_of_cut(c)); } }
             Op::BCname(n, ttl, rd) => { if !n.0.is_empty() { let r = RrsetD { rtype: T_CNAME, ttl: *ttl, rds: vec![rd.clone()] }; comm.set(n, &r);
                 sh.insert(n.clone(), Sp::Cname([format!("5/{}/{}", ttl, rd.show())].into_iter().collect())); } }
             Op::ZRec(r) => { zseen = true; comm.add(r); }
-            Op::UNew => { work = Some((comm.clone(), sh.clone())); fin = false; }
-            Op::WOpen => { work = Some((comm.clone(), sh.clone())); }
-            Op::UAdd(r) => { if !fin { if let Some(w) = work.as_mut() { w.0.add(r); } } }
-            Op::UDel(r) => { if !fin { if let Some(w) = work.as_mut() { w.0.del(r); } } }
-            Op::UDelAll => { if !fin { if let Some(w) = work.as_mut() { w.0 = Flat::default(); w.1.clear(); } } }
+            Op::UNew => { work = Some((comm.clone(), sh.clone(), ps.clone())); fin = false; }
+            Op::WOpen => { work = Some((comm.clone(), sh.clone(), ps.clone())); }
+            Op::UAdd(r) => { if !fin { if let Some(w) = work.as_mut() { w.0.add(r); if is_special_key(&r.owner, r.rtype) { w.2.add(r); } } } }
+            Op::UDel(r) => { if !fin { if let Some(w) = work.as_mut() { w.0.del(r); w.2.del(r); } } }
+            Op::UDelAll => { if !fin { if let Some(w) = work.as_mut() { w.0 = Flat::default(); w.1.clear(); w.2 = Flat::default(); } } }
             // BeginBatchDelete commits only if its SOA has the serial of the working copy (else SoaMismatch)
-            Op::UBatchDel(t) => { if !fin { if let Some(w) = work.as_ref() { if soa_tok(&w.0) == Some(*t) { comm = w.0.clone(); sh = w.1.clone(); } } } }
+            Op::UBatchDel(t) => { if !fin { if let Some(w) = work.as_ref() { if soa_tok(&w.0) == Some(*t) { comm = w.0.clone(); sh = w.1.clone(); ps = w.2.clone(); } } } }
             Op::UBatchAdd(t) => { if !fin { if let Some(w) = work.as_mut() { w.0.m.remove(&(Rel::apex(), T_SOA)); w.0.add(&soa_rec(*t)); } } }
-            Op::UFin(t) => { if !fin { if let Some(mut w) = work.take() { w.0.m.remove(&(Rel::apex(), T_SOA)); w.0.add(&soa_rec(*t)); comm = w.0; sh = w.1; } fin = true; } }
+            Op::UFin(t) => { if !fin { if let Some(mut w) = work.take() { w.0.m.remove(&(Rel::apex(), T_SOA)); w.0.add(&soa_rec(*t)); comm = w.0; sh = w.1; ps = w.2; } fin = true; } }
             Op::UDrop | Op::WDrop => { work = None; fin = false; }
-            Op::WRr(n, r) => { if let Some(w) = work.as_mut() { w.0.set(n, r); } }
-            Op::WRm(n, t) => { if let Some(w) = work.as_mut() { w.0.m.remove(&(n.clone(), *t)); } }
+            Op::WRr(n, r) => { if let Some(w) = work.as_mut() { w.0.set(n, r); if is_special_key(n, r.rtype) { w.2.set(n, r); } } }
+            Op::WRm(n, t) => { if let Some(w) = work.as_mut() { w.0.m.remove(&(n.clone(), *t)); w.2.m.remove(&(n.clone(), *t)); } }
             Op::WCut(n, c) => { if let Some(w) = work.as_mut() { if !n.0.is_empty() {
                 w.0.m.remove(&(n.clone(), T_NS)); w.0.m.remove(&(n.clone(), T_DS)); w.0.m.remove(&(n.clone(), T_CNAME));
                 w.0.set(n, &c.ns); if let Some(d) = &c.ds { w.0.set(n, d); } w.1.insert(n.clone(), sp_of_cut(c)); } } }
@@ -645,13 +656,13 @@ fn replay(ops: &[Op]) -> Replayed {
                 w.0.set(n, &RrsetD { rtype: T_CNAME, ttl: *ttl, rds: vec![rd.clone()] });
                 w.1.insert(n.clone(), Sp::Cname([format!("5/{}/{}", ttl, rd.show())].into_iter().collect())); } } }
             Op::WRegular(n) => { if let Some(w) = work.as_mut() { w.1.remove(n); } }
-            Op::WRemoveAll(n) => { if let Some(w) = work.as_mut() { w.0.remove_below(n); w.1.retain(|k, _| !n.is_prefix_of(k)); } }
-            Op::WCommit => { if let Some(w) = work.take() { comm = w.0; sh = w.1; } }
+            Op::WRemoveAll(n) => { if let Some(w) = work.as_mut() { w.0.remove_below(n); w.1.retain(|k, _| !n.is_prefix_of(k)); w.2.remove_below(n); } }
+            Op::WCommit => { if let Some(w) = work.take() { comm = w.0; sh = w.1; ps = w.2; } }
         }
     }
     if !built && zseen { sh.clear(); let owners: BTreeSet<Rel> = comm.m.keys().map(|k| k.0.clone()).collect();
         for o in owners { if let Some(x) = expected_special(&comm, &o) { sh.insert(o, x); } } }
-    Replayed { content: comm, special: sh }
+    Replayed { content: comm, special: sh, pstore: ps }
 }
 
 #[derive(Clone, Copy, PartialEq, Eq, Debug)]
@@ -661,8 +672,13 @@ enum Disagree { PlainNs, PlainCname, Stale }
 fn disagreeing(rp: &Replayed) -> Vec<(Rel, Disagree)> {
     let mut names: BTreeSet<Rel> = rp.special.keys().cloned().collect();
     for k in rp.content.m.keys() { names.insert(k.0.clone()); }
+    for k in rp.pstore.m.keys() { names.insert(k.0.clone()); }
     let mut v = vec![];
     for n in names {
+        // a delegation / alias typed RRset in the node's plain store (put there by ZoneUpdater or an
+        // RRset-level write) is never looked at as such by queries, and is listed as data by walks
+        if rp.pstore.has(&n, T_NS) || rp.pstore.has(&n, T_DS) { v.push((n, Disagree::PlainNs)); continue; }
+        if rp.pstore.has(&n, T_CNAME) { v.push((n, Disagree::PlainCname)); continue; }
         let have = rp.special.get(&n);
         let want = expected_special(&rp.content, &n);
         if have == want.as_ref() { continue; }
@@ -1007,6 +1023,63 @@ fn gen_same_version_history(r: &mut Rng, start: &Flat) -> Vec<Op> {
         }
         ops.push(Op::WCommit);
     }
+    ops
+}
+
+/// Write-interface calls that change the delegation / alias state: make_zone_cut (glue as the zone has it
+/// at that moment), make_cname, make_regular, remove_all at a node, mixed with RRset writes and a
+/// replace-all through the updater.
+fn gen_write_special_history(r: &mut Rng, start: &Flat) -> Vec<Op> {
+    let mut ops = zonefile_ops(start, r);
+    let mut cur = start.clone();
+    let mut tok = 9800u32;
+    if r.chance(1, 4) {
+        ops.push(Op::UNew); ops.push(Op::UDelAll);
+        let keep: Vec<Rec> = start.records().into_iter().filter(|x| x.rtype != T_SOA && r.chance(2, 3)).collect();
+        cur = Flat::default();
+        for x in keep { cur.add(&x); ops.push(Op::UAdd(x)); }
+        let st = soa_tok(start).unwrap_or(1);
+        cur.add(&soa_rec(st));
+        ops.push(Op::UFin(st));
+    }
+    ops.push(Op::WOpen);
+    let pool: Vec<Rel> = start.m.keys().map(|k| k.0.clone()).filter(|n| !n.0.is_empty()).collect();
+    for _ in 0..r.range(1, 4) {
+        let n = if !pool.is_empty() && r.chance(1, 2) { r.pick(&pool).clone() } else { gen_name(r, &pool, 3) };
+        if n.0.last().map(|l| l == "*").unwrap_or(true) { continue; }
+        match r.below(6) {
+            0 | 1 => {
+                // a delegation; the node may hold addresses only
+                if cur.types_at(&n).iter().any(|t| ![T_A, T_AAAA, T_NS, T_DS].contains(t)) { continue; }
+                let tgt = match r.below(3) { 0 => Rd::Tok(tok), 1 => Rd::Tgt(n.child("a")), _ => if pool.is_empty() { Rd::Tok(tok) } else { Rd::Tgt(r.pick(&pool).clone()) } };
+                tok += 1;
+                let ns = RrsetD { rtype: T_NS, ttl: 300, rds: vec![tgt.clone()] };
+                let ds = if r.chance(1, 3) { tok += 1; Some(RrsetD { rtype: T_DS, ttl: 120, rds: vec![Rd::Tok(tok)] }) } else { None };
+                let mut glue = vec![];
+                if let Rd::Tgt(t) = &tgt { if !cur.has(t, T_CNAME) { for ty in [T_A, T_AAAA] { if let Some((ttl, rds)) = cur.m.get(&(t.clone(), ty)) { for d in rds { glue.push(Rec { owner: t.clone(), rtype: ty, ttl: *ttl, rd: d.clone() }); } } } } }
+                let c = CutD { name: n.clone(), ns, ds, glue };
+                cur.m.remove(&(n.clone(), T_NS)); cur.m.remove(&(n.clone(), T_DS));
+                cur.set(&n, &c.ns); if let Some(d) = &c.ds { cur.set(&n, d); }
+                ops.push(Op::WCut(n.clone(), c));
+            }
+            2 => {
+                if !cur.types_at(&n).is_empty() && !cur.has(&n, T_CNAME) { continue; }
+                tok += 1;
+                let rd = if r.chance(1, 2) { Rd::Tok(tok) } else { Rd::Tgt(gen_name(r, &pool, 3)) };
+                cur.set(&n, &RrsetD { rtype: T_CNAME, ttl: 200, rds: vec![rd.clone()] });
+                ops.push(Op::WCname(n.clone(), 200, rd));
+            }
+            3 => { ops.push(Op::WRegular(n.clone())); }
+            4 => { cur.remove_below(&n); ops.push(Op::WRemoveAll(n.clone())); }
+            _ => {
+                if (cur.has(&n, T_NS)) || cur.has(&n, T_CNAME) { continue; }
+                tok += 1;
+                let rs = RrsetD { rtype: T_TXT, ttl: 116, rds: vec![Rd::Tok(tok)] };
+                cur.set(&n, &rs); ops.push(Op::WRr(n.clone(), rs));
+            }
+        }
+    }
+    ops.push(if r.chance(1, 6) { Op::WDrop } else { Op::WCommit });
     ops
 }
 
@@ -1438,6 +1511,19 @@ fn main() {
                 let rz = cx.run(&zonefile_ops(&scontent, &mut r)).map(|b| b.zone);
                 cx.eval("same_version_history", &sops, Some(&scontent), &sq, rz.as_ref());
             } else { cx.out.count("gen/same_version_not_wf_skipped"); }
+        }
+        // (2c) write-interface calls that set / clear delegation and alias state
+        if i % 3 == 1 {
+            let sops = gen_write_special_history(&mut r, &z);
+            let scontent = replay(&sops).content;
+            let sq = gen_queries(&mut r, &scontent, &z.m.keys().map(|k| k.0.clone()).collect::<Vec<_>>(), n_q / 2);
+            if scontent.wf() {
+                let rz = cx.run(&zonefile_ops(&scontent, &mut r)).map(|b| b.zone);
+                cx.eval("write_special_history", &sops, Some(&scontent), &sq, rz.as_ref());
+            } else {
+                cx.out.count("gen/write_special_not_wf_t2_only");
+                cx.eval("write_special_history", &sops, None, &sq, None);
+            }
         }
         // (3) safe updates on a zone with delegations
         if i % 2 == 1 {
